@@ -75,6 +75,14 @@ check("C07", "exploration",
       "Trusted: second-difference oracle (self-tested, regularity guard), symbolic reference differentiator.",
       "property-based testing (Hypothesis): metamorphic mode-agreement/symmetry relations plus numerical and symbolic oracles", "DESIGN.md C07")
 
+check("C11", "exploration",
+      "Generated NumPy index expressions of every kind (ints, negative, stepped / out-of-range slices, Ellipsis, None, integer arrays and "
+      "nested lists with repeats and broadcasting, boolean masks as arrays and lists, 0-d integer arrays, empty lists, chained indexing) on "
+      "arrays of rank 0-4 against the bincount scatter model; generated mixing programs with k sparse and m dense / pass-through uses of one "
+      "value in every order and association against the sum of dense contributions.",
+      "Trusted: NumPy's indexing applied to arange(size) as the position oracle.",
+      "property-based testing (Hypothesis) with a reference model (dense scatter by bincount)", "DESIGN.md C11")
+
 NOT_YET = {}
 
 
